@@ -32,9 +32,46 @@ def parser_axioms():
     return [QHyp([ln, b], body, 'parser.def', triggers=[(F, (0, 1)), (Rl, (0, 1)), (Rb, (0, 1))])]
 
 
-def hand_rep(view, h):
-    ln = view.f(LEN, h)
-    return And(view.f(BLEN, h) == 4, Or(OI.is_none(ln), And(OI.val(ln) >= 0, OI.val(ln) < TWO32)))
+def framing_contract(file, qual, ref, buf, ln, blen, deliv, extra_modifies, header, owner=None, props=('C14',)):
+    """the same contract for the three reassembly loops; `owner(view, self)` maps the protocol to the object
+    holding buf/len (the protocol itself, or its buffer record)"""
+    own = owner or (lambda view, s: s)
+
+    def rep(view, s):
+        o = own(view, s)
+        l = view.f(ln, o)
+        return And(view.f(blen, o) == 4, Or(OI.is_none(l), And(OI.val(l) >= 0, OI.val(l) < TWO32)))
+
+    @contract(W, file, qual, props=list(props))
+    class _K(ContractBase):
+        params = {'self': ref, 'data': BYTES}
+        modifies = [buf, ln, deliv] + list(extra_modifies)
+        locals = {'length': INT}
+        assumes = [lambda c: struct_axioms() + parser_axioms()]
+
+        def requires(c):
+            return {'rep': rep(c.old, c['self'])}
+
+        def ensures(c):
+            s = c['self']
+            o = own(c.old, s)
+            ln0, b0 = c.old.f(ln, o), z3.Concat(c.old.f(buf, o), c['data'])
+            return {'delivered': c.cur.f(deliv, s) == z3.Concat(c.old.f(deliv, s), F(ln0, b0)),
+                    'remainder': And(c.cur.f(ln, o) == Rl(ln0, b0), c.cur.f(buf, o) == Rb(ln0, b0)),
+                    'rep': rep(c.cur, s)}
+
+        def _inv(c):
+            s = c['self']
+            o = own(c.old, s)
+            l, b = c.cur.f(ln, o), c.cur.f(buf, o)
+            l0, b0 = c.entry.f(ln, o), c.entry.f(buf, o)
+            return {'stream': z3.Concat(c.cur.f(deliv, s), F(l, b)) == z3.Concat(c.entry.f(deliv, s), F(l0, b0)),
+                    'rest': And(Rl(l, b) == Rl(l0, b0), Rb(l, b) == Rb(l0, b0)),
+                    'length': c.loc('length') == If(OI.is_none(l), 4, OI.val(l)),
+                    'rep': rep(c.cur, s)}
+        loops = {header: Loop(inv=_inv, modifies=[buf, ln, deliv] + list(extra_modifies))}
+    _K.__name__ = qual.replace('.', '_')
+    return _K
 
 
 def _deliver(ex, args, line):
@@ -44,31 +81,54 @@ def _deliver(ex, args, line):
 
 
 c11_farm.hand_process.on_call = staticmethod(_deliver)
+hand_data_received = framing_contract('dawgie/pl/farm.py', 'Hand.dataReceived', HAND, BUF, LEN, BLEN, DELIV, c11_farm.hand_process.modifies,
+                                      'while length <= len(self.__buf)')
 
 
-@contract(W, 'dawgie/pl/farm.py', 'Hand.dataReceived', props=['C14'])
-class hand_data_received(ContractBase):
-    params = {'self': HAND, 'data': BYTES}
-    modifies = [BUF, LEN, DELIV] + c11_farm.hand_process.modifies
-    locals = {'length': INT}
-    assumes = [lambda c: struct_axioms() + parser_axioms()]
+def _log_handle(ex, recv, args, kwargs, line):
+    """ghost: the record handed to the log handler"""
+    sink = ex.st.env['self']
+    cur = ex.get_field(sink, 'ghost_delivered')
+    ex.call_method(cur, 'append', [args[0]], {}, line)
+    return None
 
-    def requires(c):
-        return {'rep': hand_rep(c.old, c['self'])}
 
-    def ensures(c):
-        s = c['self']
-        ln0, b0 = c.old.f(LEN, s), z3.Concat(c.old.f(BUF, s), c['data'])
-        return {'delivered': c.cur.f(DELIV, s) == z3.Concat(c.old.f(DELIV, s), F(ln0, b0)),
-                'remainder': And(c.cur.f(LEN, s) == Rl(ln0, b0), c.cur.f(BUF, s) == Rb(ln0, b0)),
-                'rep': hand_rep(c.cur, s)}
+W.methods[('LogHandler', 'handle')] = _log_handle
+logsink_data_received = framing_contract('dawgie/pl/logger/__init__.py', 'LogSink.dataReceived', LOGSINK, 'LogSink._LogSink__buf',
+                                         'LogSink._LogSink__len', 'LogSink._LogSink__blen', 'LogSink.ghost_delivered', [],
+                                         'while length <= len(self.__buf)')
 
-    def _inv(c):
-        s = c['self']
-        ln, b = c.cur.f(LEN, s), c.cur.f(BUF, s)
-        ln0, b0 = c.entry.f(LEN, s), c.entry.f(BUF, s)
-        return {'stream': z3.Concat(c.cur.f(DELIV, s), F(ln, b)) == z3.Concat(c.entry.f(DELIV, s), F(ln0, b0)),
-                'rest': And(Rl(ln, b) == Rl(ln0, b0), Rb(ln, b) == Rb(ln0, b0)),
-                'length': c.loc('length') == If(OI.is_none(ln), 4, OI.val(ln)),
-                'rep': hand_rep(c.cur, s)}
-    loops = {'while length <= len(self.__buf)': Loop(inv=_inv, modifies=[BUF, LEN, DELIV] + c11_farm.hand_process.modifies)}
+
+# ---------------------------------------------------------------- shelve comms.Worker: same loop over a dict-valued buffer
+func_of = z3.Function('command_func', MSG.sort(), FUNC.sort())     # request.func of an unpickled COMMAND
+
+
+def _rec_attr(ex, base, attr, line):
+    if base.ty == MSG and attr == 'func':
+        return V(func_of(base.t), FUNC)
+    return None
+
+
+W.rec_attr = _rec_attr
+
+
+@contract(W, 'dawgie/db/shelve/comms.py', 'Worker.do', props=['C06', 'C07', 'C13'])
+class dbworker_do_stub(ContractBase):
+    """frame only (what dataReceived needs); the table operations are specified under C06/C07"""
+    params = {'self': DBW, 'request': MSG}
+    modifies = ['dawgie.context.db_lock', 'DbWorker._Worker__has_lock', 'DbWorker._Worker__looping_call_stopped', 'DbWorker._Worker__id_name',
+                'DbWorker.ghost_told', 'DbWorker.ghost_nsent', 'DbWorker.ghost_answer', 'LoopingCall.running']
+    raises = {'ImportError': 'maybe'}
+    stub = True
+
+    @staticmethod
+    def on_call(ex, args, line):
+        h = V(args['self'], DBW)
+        cur = ex.get_field(h, 'ghost_delivered')
+        ex.call_method(cur, 'append', [V(args['request'], MSG)], {}, line)
+
+
+dbworker_data_received = framing_contract(
+    'dawgie/db/shelve/comms.py', 'Worker.dataReceived', DBW, 'WBuf.data', 'WBuf.expected', 'WBuf.actual', 'DbWorker.ghost_delivered',
+    dbworker_do_stub.modifies + ['Transport.closed'], "while length <= len(self.__buf['data'])",
+    owner=lambda view, s: view.f('DbWorker._Worker__buf', s))
